@@ -164,4 +164,27 @@ example : demoTree.ids.Nodup ∧ OpLocal demoOv demoTree := by
     rw [h _ (by simp [gOpT, T.fresh, Node.nbrs]), h _ (by simp [gOpT, T.fresh, Node.nbrs]),
       h _ (by simp [gOpT, T.fresh, Node.nbrs])]
 
+/-! ### `expectation_value_loop_value`: ket, operator and bra tensors that read all their legs -/
+
+/-- the hypotheses of `expectation_value_loop_value` are satisfiable (operator child order = `demoBraKids`), and
+with all dimensions 2 every pair of the specification graph joins legs of equal dimension -/
+example : demoTree.ids.Nodup ∧ (∀ e ∈ Tree.info none demoTree, (demoBraKids e.1).Perm e.2.2) ∧
+    KetLocal demoKv demoTree ∧ OpLocalK demoOv demoBraKids demoTree ∧ BraLocalK demoBv demoTree ∧
+    (∀ p ∈ soSpec demoTree, (fun _ : Leg => 2) p.1 = (fun _ : Leg => 2) p.2) := by
+  refine ⟨by decide, by decide, ?_, ?_, ?_, fun _ _ => rfl⟩
+  · intro e he
+    have : e = (0, none, [1]) ∨ e = (1, some 0, []) := by simpa [demoTree, Tree.info, Tree.infoL, Tree.id] using he
+    rcases this with rfl | rfl <;> intro σ τ h <;>
+      simp only [demoKv] <;> rw [h _ (by simp [gKetT, T.fresh, Node.nbrs]), h _ (by simp [gKetT, T.fresh, Node.nbrs])]
+  · intro e he
+    have : e = (0, none, [1]) ∨ e = (1, some 0, []) := by simpa [demoTree, Tree.info, Tree.infoL, Tree.id] using he
+    rcases this with rfl | rfl <;> intro σ τ h <;>
+      simp only [demoOv] <;>
+      rw [h _ (by simp [gOpT, T.fresh, Node.nbrs, demoBraKids]), h _ (by simp [gOpT, T.fresh, Node.nbrs, demoBraKids]),
+        h _ (by simp [gOpT, T.fresh, Node.nbrs, demoBraKids])]
+  · intro e he
+    have : e = (0, none, [1]) ∨ e = (1, some 0, []) := by simpa [demoTree, Tree.info, Tree.infoL, Tree.id] using he
+    rcases this with rfl | rfl <;> intro σ τ h <;>
+      simp only [demoBv] <;> rw [h _ (by simp [gBraT, T.fresh, Node.nbrs]), h _ (by simp [gBraT, T.fresh, Node.nbrs])]
+
 end Ptn.C04
